@@ -1,10 +1,14 @@
 //! C13: AS path conversions (src/bgp/aspath.rs) through the public API.
 //!
 //! hop path  `-` | hop{,hop}    hop = `a<asn>` | `s<ty>/<w>:<asn>{.<asn>}`
-//! requests  compose H | compose16 H | count H        (H: w=4, ty in {1,3,4})
+//! requests  compose H | compose16 H | count H | hprepend H ASN N | hpeq H H
+//!           (H: what the public API builds: `s<1|3|4>/4:` of any length = Segment::new_set / new_confed_*;
+//!            every other `s<1..4>/<2|4>:` = a segment cut out of a checked wire path of that width
+//!            (AsPath::segments() + octets_into): at most 255 ASNs, ASNs fit the width)
 //!           wire W HEX | prepend W HEX ASN N | eq W1 HEX1 W2 HEX2
 use crate::common::*;
 use inetnum::asn::Asn;
+use octseq::OctetsInto;
 use routecore::bgp::aspath::{AsPath, Hop, HopPath, Segment};
 use std::hash::{Hash, Hasher};
 
@@ -89,40 +93,77 @@ pub(crate) fn parse_thops(s: &str) -> Option<Vec<THop>> {
     s.split(',').map(parse_thop).collect()
 }
 
-/// request-side: only what the public API constructs directly
+/// request-side: only what the public API constructs
 pub(crate) fn parse_api_hops(s: &str) -> Option<Vec<THop>> {
     let v = parse_thops(s)?;
-    for h in &v {
-        if let THop::Seg(ty, w, _) = h {
-            if *w != 4 || !(*ty == 1 || *ty == 3 || *ty == 4) { return None; }
-            // the model's request grammar has exactly one digit for the type
-        }
-    }
-    // reject forms the model's parser rejects (e.g. "s01/4:")
+    // reject forms the model's parser rejects (e.g. "s01/4:"): exactly one character for type and width
     if s != "-" {
         for t in s.split(',') {
-            if t.starts_with('s') && !(t.len() >= 5 && &t[2..5] == "/4:") { return None; }
+            if t.starts_with('s') && !(t.len() >= 5 && t.is_char_boundary(2) && t.is_char_boundary(5)
+                && (&t[2..5] == "/4:" || &t[2..5] == "/2:")) { return None; }
+        }
+    }
+    for h in &v {
+        if let THop::Seg(ty, w, asns) = h {
+            let new_star = *w == 4 && (*ty == 1 || *ty == 3 || *ty == 4);          // Segment::new_*: any length
+            let from_wire = (1..=4).contains(ty) && (*w == 4 || *w == 2) && asns.len() <= 255
+                && (*w == 4 || asns.iter().all(|a| *a <= 65535));                  // cut out of a wire path
+            if !(new_star || from_wire) { return None; }
         }
     }
     Some(v)
 }
 
+/// width-erased hops as they come out of the implementation
 pub(crate) fn erase(v: &[THop]) -> Vec<RHop> {
     v.iter().map(|h| match h { THop::Asn(a) => RHop::Asn(*a), THop::Seg(t, _, a) => RHop::Seg(*t, a.clone()) }).collect()
 }
 
-pub(crate) fn build(v: &[THop]) -> HopPath {
-    let mut hp = HopPath::new();
+/// the hop sequence a requested hop path stands for: width erased, and a non-empty AS_SEQUENCE held as
+/// one segment hop is the ASNs it contains (RFC 4271: a sequence of ASNs is a sequence of ASNs however
+/// the sender stored it)
+pub(crate) fn erase_flat(v: &[THop]) -> Vec<RHop> {
+    let mut out = Vec::new();
     for h in v {
         match h {
-            THop::Asn(a) => hp.append(Hop::Asn(Asn::from_u32(*a))),
-            THop::Seg(ty, _, asns) => {
+            THop::Asn(a) => out.push(RHop::Asn(*a)),
+            THop::Seg(2, _, a) if !a.is_empty() => out.extend(a.iter().map(|x| RHop::Asn(*x))),
+            THop::Seg(t, _, a) => out.push(RHop::Seg(*t, a.clone())),
+        }
+    }
+    out
+}
+
+/// true when decoding the wire form gives back the hop path itself (up to the width of segment hops)
+pub(crate) fn is_flat(v: &[THop]) -> bool { !v.iter().any(|h| matches!(h, THop::Seg(2, _, a) if !a.is_empty())) }
+
+pub(crate) fn build(v: &[THop]) -> HopPath {
+    // hop paths of even length are built front to back with append / append_set / append_confed_*, those of
+    // odd length back to front with prepend / prepend_set / prepend_confed_* (the same HopPath either way)
+    let back = v.len() % 2 == 1;
+    let mut hp = HopPath::new();
+    let order: Vec<&THop> = if back { v.iter().rev().collect() } else { v.iter().collect() };
+    for h in order {
+        match h {
+            THop::Asn(a) => if back { hp.prepend(Hop::Asn(Asn::from_u32(*a))) } else { hp.append(Hop::Asn(Asn::from_u32(*a))) },
+            THop::Seg(ty, w, asns) if *w == 4 && matches!(ty, 1 | 3 | 4) => {
                 let it = asns.iter().map(|a| Asn::from_u32(*a));
-                match ty {
-                    1 => hp.append_set(it),
-                    3 => hp.append_confed_sequence(it),
-                    _ => hp.append_confed_set(it),
+                match (ty, back) {
+                    (1, false) => hp.append_set(it),
+                    (3, false) => hp.append_confed_sequence(it),
+                    (_, false) => hp.append_confed_set(it),
+                    (1, true) => hp.prepend_set(it),
+                    (3, true) => hp.prepend_confed_sequence(it),
+                    (_, true) => hp.prepend_confed_set(it),
                 }
+            }
+            THop::Seg(ty, w, asns) => {
+                // any other segment: cut it out of a one-segment wire path of that width
+                let four = *w == 4;
+                let p = AsPath::new(ref_encode(&[(*ty, asns.clone())], four), four).expect("request grammar admits only segments with a wire form");
+                let seg = p.segments().next().expect("one segment");
+                let hop: Hop<Vec<u8>> = Hop::Segment(seg.octets_into());
+                if back { hp.prepend(hop) } else { hp.append(hop) }
             }
         }
     }
@@ -133,12 +174,21 @@ fn show_asns<I: Iterator<Item = Asn>>(it: I) -> String {
     it.take(100_000).map(|a| a.into_u32().to_string()).collect::<Vec<_>>().join(".")
 }
 
-/// stype and width are private fields: read them off derive(Debug)
+/// the segment type is read through the public API (first octet `Segment::compose` writes; a segment of
+/// more than 255 ASNs cannot be composed: then off the Display name). The storage width is a private
+/// field with no accessor: it is read off derive(Debug) and only ever compared with the model, the
+/// oracle never judges it.
 fn show_seg<O: octseq::Octets + std::fmt::Debug>(s: &Segment<O>) -> String {
-    let d = format!("{:?}", s);
-    let ty = if d.contains("stype: Set") { 1 } else if d.contains("stype: Sequence") { 2 }
-        else if d.contains("stype: ConfedSequence") { 3 } else if d.contains("stype: ConfedSet") { 4 } else { 0 };
-    let w = if d.contains("four_byte_asns: true") { 4 } else { 2 };
+    let ty = if s.asns().take(256).count() <= 255 {
+        let mut v: Vec<u8> = Vec::new();
+        let _ = s.compose(&mut v);
+        v.first().copied().unwrap_or(0)
+    } else {
+        let d = format!("{}", s);
+        if d.starts_with("AS_SET") { 1 } else if d.starts_with("AS_SEQUENCE") { 2 }
+        else if d.starts_with("AS_CONFED_SEQUENCE") { 3 } else if d.starts_with("AS_CONFED_SET") { 4 } else { 0 }
+    };
+    let w = if format!("{:?}", s).contains("four_byte_asns: true") { 4 } else { 2 };
     format!("s{}/{}:{}", ty, w, show_asns(s.asns()))
 }
 
@@ -163,6 +213,7 @@ fn rec_hash<T: Hash>(t: &T) -> String {
 }
 
 pub(crate) fn parse_w(s: &str) -> Option<bool> { match s { "4" => Some(true), "2" => Some(false), _ => None } }
+fn n_is_plain(s: &str) -> bool { !s.is_empty() && s.bytes().all(|c| c.is_ascii_digit()) }
 fn parse_u32_strict(s: &str) -> Option<u32> { if !s.is_empty() && s.bytes().all(|c| c.is_ascii_digit()) { s.parse().ok() } else { None } }
 
 pub(crate) fn field<'a>(reply: &'a str, key: &str) -> Option<&'a str> {
@@ -198,6 +249,36 @@ pub(crate) fn gen_hop_path(rng: &mut Rng) -> String {
                     else if rng.chance(1, 4) { *rng.pick(SEGN) } else { rng.usize(0, 6) };
             let asns: Vec<String> = (0..n).map(|_| { let big = !small && rng.chance(1, 20); pick_asn(rng, !big).to_string() }).collect();
             toks.push(format!("s{}/4:{}", ty, asns.join(".")));
+        }
+    }
+    join(toks)
+}
+
+/// hop paths over everything the public API can put into a HopPath: as `gen_hop_path`, plus segments cut
+/// out of wire paths of either width – among them a non-empty AS_SEQUENCE held as ONE segment hop
+/// (`HopPath::from(Vec<Segment>)`, `append(Hop::Segment(..))`) and two-octet segment hops (`to_hop_path`
+/// of a two-octet path).
+pub(crate) fn gen_hop_path_g(rng: &mut Rng) -> String {
+    let small = rng.chance(3, 5);
+    let pieces = rng.usize(1, 5);
+    let mut toks: Vec<String> = Vec::new();
+    for _ in 0..pieces {
+        match rng.below(4) {
+            0 => {
+                let n = if rng.chance(1, 4) { *rng.pick(RUNS) } else { rng.usize(0, 6) };
+                for _ in 0..n { let big = !small && rng.chance(1, 20); toks.push(format!("a{}", pick_asn(rng, !big))); }
+            }
+            1 => {
+                let t = gen_hop_path(rng);
+                if t != "-" { toks.push(t); }
+            }
+            _ => {
+                let two = rng.chance(1, 3);
+                let ty = if rng.chance(1, 2) { 2 } else { rng.range(1, 4) as u8 };
+                let n = if rng.chance(1, 5) { *rng.pick(&[0usize, 1, 254, 255]) } else { rng.usize(0, 6) };
+                let asns: Vec<String> = (0..n).map(|_| { let big = !two && !small && rng.chance(1, 10); pick_asn(rng, !big).to_string() }).collect();
+                toks.push(format!("s{}/{}:{}", ty, if two { 2 } else { 4 }, asns.join(".")));
+            }
         }
     }
     join(toks)
@@ -240,12 +321,52 @@ impl Prop for C13 {
             if n % 2 == 0 { v.push(format!("prepend 2 02020001000201010005 {} {}", 64512 + n, n)); }
             else { v.push(format!("prepend 4 0201000100000301fffffffe {} {}", 4200000000u32 + n as u32, n)); }
         }
-        // structured hop paths
-        for _ in 0..(500 * scale) {
-            let h = gen_hop_path(rng);
+        // structured hop paths: those of Hop::Asn + Segment::new_*, then hop paths holding segments cut out
+        // of wire paths (AS_SEQUENCE as one segment hop, two-octet segment hops)
+        for i in 0..(500 * scale) {
+            let h = if i % 2 == 0 { gen_hop_path(rng) } else { gen_hop_path_g(rng) };
             v.push(format!("compose {}", h));
             v.push(format!("compose16 {}", h));
             v.push(format!("count {}", h));
+            if i % 4 == 1 {
+                let n = if rng.chance(1, 3) { *rng.pick(RUNS) } else { rng.usize(0, 5) };
+                let sm = rng.bool();
+                v.push(format!("hprepend {} {} {}", h, pick_asn(rng, sm), n));
+            }
+        }
+        // hop-path equality / hashing: the same hops with segment widths flipped where both widths exist, the
+        // flat hop sequence, a near miss
+        for _ in 0..(150 * scale) {
+            let h = gen_hop_path_g(rng);
+            let Some(t) = parse_api_hops(&h) else { continue };
+            if t.iter().any(|x| matches!(x, THop::Seg(_, _, a) if a.len() > 255)) { continue; }
+            let show = |v: &Vec<THop>| join(v.iter().map(|x| match x { THop::Asn(a) => format!("a{}", a),
+                THop::Seg(ty, w, a) => format!("s{}/{}:{}", ty, w, a.iter().map(|y| y.to_string()).collect::<Vec<_>>().join(".")) }).collect());
+            let flipped: Vec<THop> = t.iter().map(|x| match x {
+                THop::Seg(ty, w, a) if a.iter().all(|y| *y <= 65535) => THop::Seg(*ty, 6 - *w, a.clone()),
+                o => o.clone() }).collect();
+            v.push(format!("hpeq {} {}", h, show(&flipped)));
+            let mut flat: Vec<THop> = Vec::new();
+            for x in &t { match x { THop::Seg(2, _, a) if !a.is_empty() => flat.extend(a.iter().map(|y| THop::Asn(*y))), o => flat.push(o.clone()) } }
+            v.push(format!("hpeq {} {}", h, show(&flat)));
+            let mut other = t.clone();
+            if !other.is_empty() {
+                let i = rng.usize(0, other.len() - 1);
+                match &mut other[i] {
+                    THop::Asn(a) => { *a ^= 1; }
+                    THop::Seg(ty, w, a) => { if rng.bool() { *ty = (*ty % 4) + 1; if *w == 4 && *ty == 2 && a.len() > 255 { *ty = 3; } } else if a.pop().is_none() { a.push(7); } }
+                }
+            } else { other.push(THop::Asn(1)); }
+            v.push(format!("hpeq {} {}", h, show(&other)));
+        }
+        // an AS_SEQUENCE of every boundary size as ONE segment hop, alone and next to plain ASN hops
+        for n in [1usize, 2, 254, 255] {
+            for w in [4, 2] {
+                let seg = format!("s2/{}:{}", w, (0..n).map(|i| (64000 + i).to_string()).collect::<Vec<_>>().join("."));
+                for h in [seg.clone(), format!("a1,{},a7", seg), format!("{},s1/4:5.6,{}", seg, seg)] {
+                    v.push(format!("compose {}", h)); v.push(format!("compose16 {}", h)); v.push(format!("count {}", h));
+                }
+            }
         }
         // wire paths, both widths; mostly valid, then a malformed stream
         for _ in 0..(500 * scale) {
@@ -320,6 +441,22 @@ impl Prop for C13 {
                 let hp = build(&h);
                 format!("ok {} {}", hp.hop_count(), hp.hop_count_path_selection())
             }
+            ["hpeq", h1, h2] => {
+                let (Some(a), Some(b)) = (parse_api_hops(h1), parse_api_hops(h2)) else { return "bad-op".into() };
+                let (pa, pb) = (build(&a), build(&b));
+                format!("ok {} {}", pa == pb, rec_hash(&pa) == rec_hash(&pb))
+            }
+            ["hprepend", h, a, n] => {
+                let (Some(h), Some(a), Some(n)) = (parse_api_hops(h), parse_u32_strict(a), n.parse::<usize>().ok()) else { return "bad-op".into() };
+                if n > 2000 || !n_is_plain(w[3]) { return "bad-op".into(); }
+                let mut hp = build(&h);
+                let asn = Asn::from_u32(a);
+                // the whole prepend family: n copies through prepend_n, or the equivalent prepend / prepend_arr
+                match n { 1 => hp.prepend(asn), 2 => hp.prepend_arr([asn, asn]), 3 => hp.prepend_arr([asn, asn, asn]), _ => hp.prepend_n(asn, n) }
+                let p: AsPath<Vec<u8>> = hp.to_as_path().unwrap();
+                let hops = join(p.hops().take(100_000).map(|h| show_hop(&h)).collect());
+                format!("ok {} hops={}", hex(&p.into_inner()), hops)
+            }
             ["wire", ws, hx] => {
                 let (Some(four), Some(bs)) = (parse_w(ws), unhex(hx)) else { return "bad-op".into() };
                 let p = match AsPath::new(bs, four) { Ok(p) => p, Err(_) => return "err".into() };
@@ -328,21 +465,23 @@ impl Prop for C13 {
                 let hops = join(hp.iter().map(show_hop).collect());
                 let b32: AsPath<Vec<u8>> = hp.to_as_path().unwrap();
                 let b16 = match hp.try_to_asn16_path::<Vec<u8>>() { Ok(p) => hex(&p.into_inner()), Err(_) => "err".into() };
-                format!("ok segs={} hops={} back32={} back16={} hash={} single={}", segs, hops,
-                    hex(&b32.into_inner()), b16, rec_hash(&p), p.is_single_sequence())
+                format!("ok segs={} hops={} back32={} back16={} count={} single={}", segs, hops,
+                    hex(&b32.into_inner()), b16, hp.hop_count_path_selection(), p.is_single_sequence())
             }
             ["prepend", ws, hx, a, n] => {
                 let (Some(four), Some(bs), Some(a), Some(n)) = (parse_w(ws), unhex(hx), parse_u32_strict(a), n.parse::<usize>().ok())
                     else { return "bad-op".into() };
                 let p = match AsPath::new(bs, four) { Ok(p) => p, Err(_) => return "err".into() };
-                let r = p.prepend(Asn::from_u32(a), n).unwrap();
+                let asn = Asn::from_u32(a);
+                let r = match n { 2 => p.prepend_arr([asn, asn]).unwrap(), 4 => p.prepend_arr([asn, asn, asn, asn]).unwrap(), _ => p.prepend(asn, n).unwrap() };
                 let hops = join(r.hops().take(100_000).map(|h| show_hop(&h)).collect());
                 format!("ok {} hops={}", hex(&r.into_inner()), hops)
             }
             ["eq", w1, h1, w2, h2] => {
                 let (Some(f1), Some(b1), Some(f2), Some(b2)) = (parse_w(w1), unhex(h1), parse_w(w2), unhex(h2))
                     else { return "bad-op".into() };
-                let (p1, p2) = match (AsPath::new(b1, f1), AsPath::new(b2, f2)) { (Ok(a), Ok(b)) => (a, b), _ => return "err".into() };
+                // the right-hand side atop a borrowed slice: `PartialEq<AsPath<Other>>` across octets types
+                let (p1, p2) = match (AsPath::new(b1, f1), AsPath::new(&b2[..], f2)) { (Ok(a), Ok(b)) => (a, b), _ => return "err".into() };
                 format!("ok {} {}", p1 == p2, rec_hash(&p1) == rec_hash(&p2))
             }
             _ => "bad-op".into(),
@@ -356,7 +495,7 @@ impl Prop for C13 {
             ["compose", h] | ["compose16", h] => {
                 let wide = w[0] == "compose";
                 let h = parse_api_hops(h).ok_or("unparsable request")?;
-                let want = erase(&h);
+                let want = erase_flat(&h);
                 if reply == "panic" { return Err("conversion of an API-built hop path to wire format panicked".into()); }
                 let large = h.iter().any(|x| match x { THop::Asn(a) => *a > 65535, THop::Seg(_, _, a) => a.iter().any(|y| *y > 65535) });
                 if !wide {
@@ -378,20 +517,51 @@ impl Prop for C13 {
                 Ok(())
             }
             ["count", h] => {
+                // sequence AS numbers (plain ASN hops and the ASNs of an AS_SEQUENCE held as one segment hop)
+                // plus AS_SETs; confederation segments are ignored. `hop_count()` (first number) is not the
+                // property's subject: it is compared with the model only.
                 let h = parse_api_hops(h).ok_or("unparsable request")?;
-                let sel = h.iter().filter(|x| matches!(x, THop::Asn(_) | THop::Seg(1, _, _))).count();
-                if reply == format!("ok {} {}", h.len(), sel) { Ok(()) } else { Err(format!("expected hop_count {} and path-selection count {}", h.len(), sel)) }
+                let sel: usize = h.iter().map(|x| match x { THop::Asn(_) => 1, THop::Seg(1, _, _) => 1, THop::Seg(2, _, a) => a.len(), _ => 0 }).sum();
+                let got = reply.split(' ').nth(2).and_then(|x| x.parse::<usize>().ok());
+                if reply.starts_with("ok ") && got == Some(sel) { Ok(()) } else { Err(format!("path-selection hop count: expected {} (sequence ASNs + AS_SETs), reply `{}`", sel, reply)) }
+            }
+            ["hpeq", h1, h2] => {
+                // hop paths with the same hops – segment hops in whatever storage width – compare equal and
+                // hash equal (`Hop::eq`/`Segment::eq` across widths; Eq/Hash consistency). Different hops: model only.
+                let (a, b) = (parse_api_hops(h1).ok_or("unparsable request")?, parse_api_hops(h2).ok_or("unparsable request")?);
+                if a.iter().chain(b.iter()).any(|x| matches!(x, THop::Seg(_, _, s) if s.len() > 255)) { return Ok(()); }  // K2: Segment::hash panics
+                let r: Vec<&str> = reply.split(' ').collect();
+                if r.len() != 3 || r[0] != "ok" { return Err(format!("comparison of two hop paths gave {}", reply)); }
+                if erase(&a) == erase(&b) {
+                    if r[1] != "true" { return Err("hop paths with the same hops compare unequal".into()); }
+                    if r[2] != "true" { return Err("hop paths with the same hops hash differently".into()); }
+                }
+                if r[1] == "true" && r[2] != "true" { return Err("hop paths that compare equal hash differently".into()); }
+                Ok(())
+            }
+            ["hprepend", h, a, n] => {
+                let h = parse_api_hops(h).ok_or("unparsable request")?;
+                if h.iter().any(|x| matches!(x, THop::Seg(_, _, a) if a.len() > 255)) { return Ok(()); }   // K2 is judged on compose lines
+                if !reply.starts_with("ok ") { return Err(format!("prepend_n + to_as_path on an API-built hop path gave {}", reply)); }
+                let a: u32 = a.parse().map_err(|_| "asn")?; let n: usize = n.parse().map_err(|_| "n")?;
+                let mut want: Vec<RHop> = std::iter::repeat(RHop::Asn(a)).take(n).collect();
+                want.extend(erase_flat(&h));
+                let out = unhex(reply.split(' ').nth(1).ok_or("short")?).ok_or("hex")?;
+                let so = ref_segments(&out, true).ok_or("prepend_n + to_as_path emitted an invalid AS_PATH")?;
+                if ref_hops(&so) != want { return Err("prepend_n(asn, n) is not n copies followed by the original hops".into()); }
+                Ok(())
             }
             ["wire", ws, hx] => {
                 let four = parse_w(ws).ok_or("w")?; let bs = unhex(hx).ok_or("hex")?;
-                let Some(segs) = ref_segments(&bs, four) else {
-                    return if reply == "err" { Ok(()) } else { Err("an invalid AS_PATH was accepted".into()) };
-                };
+                // the property quantifies over VALID wire paths: what happens to an invalid one is not its
+                // subject (the reply is still compared with the model)
+                let Some(segs) = ref_segments(&bs, four) else { return Ok(()) };
                 if reply == "err" { return Err("a valid AS_PATH was rejected".into()); }
                 if reply == "panic" { return Err("panic on a valid AS_PATH".into()); }
-                let wd = if four { 4 } else { 2 };
-                let want_segs = join(segs.iter().map(|(t, a)| format!("s{}/{}:{}", t, wd, a.iter().map(|x| x.to_string()).collect::<Vec<_>>().join("."))).collect());
-                if field(reply, "segs=") != Some(want_segs.as_str()) { return Err("segments() differ from the wire".into()); }
+                // segments(): types and ASNs as on the wire (the storage width is private: not judged)
+                let got_segs = parse_thops(field(reply, "segs=").ok_or("no segs")?).ok_or("bad segs")?;
+                let want_segs: Vec<RHop> = segs.iter().map(|(t, a)| RHop::Seg(*t, a.clone())).collect();
+                if erase(&got_segs) != want_segs { return Err("segments() differ from the wire".into()); }
                 let want = ref_hops(&segs);
                 let got = parse_thops(field(reply, "hops=").ok_or("no hops")?).ok_or("bad hops")?;
                 if erase(&got) != want { return Err("to_hop_path differs from the wire".into()); }
@@ -405,17 +575,16 @@ impl Prop for C13 {
                     let s16 = ref_segments(&unhex(b16).ok_or("hex")?, false).ok_or("re-emitted 2-octet path invalid")?;
                     if ref_hops(&s16) != want { return Err("wire -> hops -> 2-octet wire changed the hop sequence".into()); }
                 }
-                let mut hk = Vec::new();
-                for (t, a) in &segs { hk.push(format!("b{}", t)); hk.push(format!("b{}", a.len())); for x in a { hk.push(format!("w{}", x)); } }
-                let hk = if hk.is_empty() { "-".to_string() } else { hk.join(".") };
-                if field(reply, "hash=") != Some(hk.as_str()) { return Err("hash input is not (type, count, ASNs as u32) per segment".into()); }
+                // path-selection hop count of the hop path: ASNs of AS_SEQUENCEs + number of AS_SETs
+                let sel: usize = segs.iter().map(|(t, a)| match t { 2 => a.len(), 1 => 1, _ => 0 }).sum();
+                if field(reply, "count=") != Some(sel.to_string().as_str()) {
+                    return Err(format!("path-selection hop count of the hop path is {} but the wire has {} sequence ASNs + AS_SETs", field(reply, "count=").unwrap_or("?"), sel));
+                }
                 Ok(())
             }
             ["prepend", ws, hx, a, n] => {
                 let four = parse_w(ws).ok_or("w")?; let bs = unhex(hx).ok_or("hex")?;
-                let Some(segs) = ref_segments(&bs, four) else {
-                    return if reply == "err" { Ok(()) } else { Err("an invalid AS_PATH was accepted".into()) };
-                };
+                let Some(segs) = ref_segments(&bs, four) else { return Ok(()) };   // valid wire paths only
                 if !reply.starts_with("ok ") { return Err(format!("prepend on a valid path gave {}", reply)); }
                 let a: u32 = a.parse().map_err(|_| "asn")?; let n: usize = n.parse().map_err(|_| "n")?;
                 let mut want: Vec<RHop> = std::iter::repeat(RHop::Asn(a)).take(n).collect();
@@ -430,14 +599,15 @@ impl Prop for C13 {
             ["eq", w1, h1, w2, h2] => {
                 let s1 = ref_segments(&unhex(h1).ok_or("hex")?, parse_w(w1).ok_or("w")?);
                 let s2 = ref_segments(&unhex(h2).ok_or("hex")?, parse_w(w2).ok_or("w")?);
-                let (Some(s1), Some(s2)) = (s1, s2) else {
-                    return if reply == "err" { Ok(()) } else { Err("an invalid AS_PATH was accepted".into()) };
-                };
-                let want = s1 == s2;
+                let (Some(s1), Some(s2)) = (s1, s2) else { return Ok(()) };          // valid wire paths only
                 let r: Vec<&str> = reply.split(' ').collect();
-                if r.len() != 3 || r[0] != "ok" { return Err(format!("comparison gave {}", reply)); }
-                if r[1] != want.to_string() { return Err(format!("paths with {} segments compare {}", if want { "the same" } else { "different" }, r[1])); }
-                if want && r[2] != "true" { return Err("equal paths hash differently".into()); }
+                if r.len() != 3 || r[0] != "ok" { return Err(format!("comparison of two valid paths gave {}", reply)); }
+                // the property states one direction: the SAME segments (in whatever widths) compare equal and
+                // hash equal. What `==` says about different segments is compared with the model only.
+                if s1 == s2 {
+                    if r[1] != "true" { return Err("paths with the same segments compare unequal".into()); }
+                    if r[2] != "true" { return Err("paths with the same segments hash differently".into()); }
+                }
                 Ok(())
             }
             _ => Ok(()),
@@ -452,12 +622,16 @@ impl Prop for C13 {
         let extra = match op {
             "compose" | "compose16" => {
                 let h = line.split(' ').nth(1).unwrap_or("");
-                let mut run = 0usize; let mut maxrun = 0usize; let mut seg = false;
-                if h != "-" { for t in h.split(',') { if t.starts_with('a') { run += 1; maxrun = maxrun.max(run); } else { run = 0; seg = true; } } }
-                format!(":run{}{}", if maxrun > 510 { ">510" } else if maxrun > 255 { ">255" } else { "<=255" }, if seg { "+segs" } else { "" })
+                let mut run = 0usize; let mut maxrun = 0usize; let mut seg = false; let mut seq = false; let mut two = false;
+                if h != "-" { for t in h.split(',') { if t.starts_with('a') { run += 1; maxrun = maxrun.max(run); } else {
+                    run = 0; seg = true;
+                    if t.starts_with("s2/") && !t.ends_with(':') { seq = true; }
+                    if t.get(2..4) == Some("/2") { two = true; } } } }
+                format!(":run{}{}{}{}", if maxrun > 510 { ">510" } else if maxrun > 255 { ">255" } else { "<=255" }, if seg { "+segs" } else { "" },
+                    if seq { "+seqseg" } else { "" }, if two { "+w2seg" } else { "" })
             }
             "wire" | "prepend" => format!(":w{}", line.split(' ').nth(1).unwrap_or("")),
-            "eq" => format!(":{}", reply.split(' ').nth(1).unwrap_or("")),
+            "eq" | "hpeq" => format!(":{}", reply.split(' ').nth(1).unwrap_or("")),
             _ => String::new(),
         };
         format!("{}{}:{}", op, extra, r)
